@@ -151,8 +151,14 @@ def filteredH : Handler := fun j => do
   let entry ← nat (← field j "entry")
   return jList jNat (((runF core (stdOrc seed) f fuel entry).filter (allowed nb (coreOf f core))).map (·.id))
 
+/-- args {"name", "tys"} -> [bool] : `matchesOf` (the model's copy of the extension kernel table) -/
+def matchesH : Handler := fun j => do
+  let name ← str (← field j "name")
+  let tys ← listOf str (← field j "tys")
+  return jList Json.bool (matchesOf ⟨name, tys⟩)
+
 def handlers : List (String × Handler) :=
   [("c14.dispatch", dispatchH), ("c14.run", runH), ("c14.pin", pinH), ("c14.rules", rulesH),
-   ("c14.filtered", filteredH)]
+   ("c14.filtered", filteredH), ("c14.matches", matchesH)]
 
 end SnaxVerif.Drv.C14
